@@ -10,10 +10,12 @@ LEVEL_NOTE = ("Trusted: Lean 4.33 kernel + Mathlib; axioms limited to propext/Cl
 CHECKS = {
  'C01': ("Lean theorems about the model of the constructor (`construct`): lookups of specified / unspecified / outside outcomes, alignment, order, density, trimming, alphabets, one rejection theorem per malformed kind and totality; tied to dit by a correspondence check that constructs the same valid and malformed specifications with the real Distribution / ScalarDistribution (sequence, dict, ndarray, pmf-only forms; list / SampleSpace / CartesianProduct spaces; six bases) and compares the whole observable record or the exception kind, plus a direct oracle on the real object (bit-exact read-back, outsiders, printable messages).", "§5 C01"),
  'C02': ("41 Lean theorems: the pushforward-measure law for the dict-accumulating fold that models coalesce (any event, any table, duplicates included), fibre-sum lookups, mass, composition/staging, sortedness and duplicate-freeness of the result, dense and sparse (trimmed) Dist-level statements for marginal/coalesce, sample-space projection for Cartesian and explicit spaces, parse_rvs and name bookkeeping; tied to dit by running marginal / marginalize / coalesce (indices or names, repeats, overlaps, extract) on the real code and on the model and comparing the full observable record, names and mask; oracle recomputes fibre sums from d[o] over the source space.", "§5 C02"),
+ 'C03': ("17 Lean theorems about the model of condition_on / joint_from_factors: the conditioning marginal and its stored rows (non-null fibre sums, in order, one conditional per row), the chain rule P(c) P(r|c) = P(c,r) on the internal table and on the returned distributions (with the exact exception clauses caused by trimming), normalisation of every conditional, metadata, the mask interleaving restores variable order (injective), and recombination of the factors gives back the joint over the union variables for every event. Tied to dit by running condition_on (indices / names, rvs=None, dropped variables, extract, 6 bases, zero-probability conditioning values, unequal supports) and joint_from_factors on the real code and the model and comparing all observables; oracle multiplies back against d.marginal.", "§5 C03"),
  'C04': ("30 Lean theorems at the reals about the model's entropy definitions (the same generic definitions the driver evaluates in Float): entropyVals = -sum p log2 p, invariance under permutation and zero entries, entropy of a marginal = -sum over fibre sums, 0 <= H <= log2|support|, conditional entropy and mutual information as entropy differences incl. the X subset-of Z shortcut, Renyi orders 0/1/inf/generic, Tsallis (order 1 in nats), extropy, perplexity, and the genuine limits Renyi, Tsallis -> Shannon as the order tends to 1; tied to dit by evaluating H, H(X|Y), I(X:Y) for random and (thorough) all pairs of subsets, and the Renyi/Tsallis/extropy/perplexity family, on the real code and on the model in Float (1e-9), with a direct-definition oracle and finiteness checks.", "§5 C04"),
  'C05': ("29 Lean theorems: (a) over any commutative ring and any set function, each measure's model combination equals its defining formula, the canonical form preserves the value, interaction = (-1)^n coinformation, O = T - B, B = H - R, CAEKL candidates are normalised total correlations, two-group coincidence with I(X:Y|Z) (for B under the exact hypothesis needed, with a counterexample otherwise); (b) at the reals from Gibbs' inequality: I(X:Y|Z) >= 0, T >= 0 (any groups), B >= 0 (disjoint groups), CAEKL >= 0, for every non-negative table. Tied to dit two ways: the real functions are executed with a symbolic entropy oracle and their exact rational coefficient vectors are compared with the model's (distribution-independent; all shapes for n <= 4 in the thorough tier), and numerically in Float (1e-9).", "§5 C05"),
  'C07': ("28 Lean theorems at the reals about the model of dit's LogOperations (the same formulas the driver evaluates in Float), for every base b>0, b!=1 incl. b<1: add / add_reduce / mult / mult_reduce / invert / normalize exponentiate to linear arithmetic (also dit's generic-base code path through base 2), the null value as a limit, base-change chains (b->c->d = b->d, round trips), entropy / extropy / every entropy combination scale by 1/log2 b, perplexity is base-free. Tied to dit by running the real Operations objects on arrays with zeros and empty arrays against the model and against linear arithmetic, chains of set_base / copy(base=), and metamorphic runs: lookup, event probability, validate, normalize, marginal, coalesce, condition_on, product, mixture, sampling and 13 measures on a log distribution against its linear copy.", "§5 C07"),
  'C09': ("Refinement proof in Lean: the list-based mutation machine that mirrors dit (`Dist.step`) refines a plain table specification (`specStep` on a function outcome -> Option value) for every operation and, by induction, every history; invariant preservation; illegal operations are no-ops raising InvalidOutcome; sample space constant; set/get, del/get, dense/sparse round trips; construct establishes the invariant. Tied to dit by replaying random and (thorough) all short histories on the real object and on the model, comparing output, full state and validate() verdict after every operation; copy identity/independence and future random draws are checked on the real code.", "§5 C09"),
+ 'C11': ("41 Lean theorems about the models of the constructors: modify_outcomes and insert_rvf as pushforwards (old variables' joint preserved), product of marginals (lookup = product, mass, block marginals), mixtures (lookup = sum of w_i P_i, mass 1), law of op(X,Y) for independent X, Y with collisions merged, @ as independent joint, uniform / noisy / erasure tables, mean, central moments (first = 0), mode and median characterisations. Tied to dit by running every constructor on the real code and on the model in exact arithmetic (14 kinds, 12 binary operators with Python's floor-division / modulo semantics, 6 bases where supported) and the example-distribution constructors and statistics against exact rational references.", "§5 C11"),
  'C12': ("Theorems in Lean 4 about the model of the inverse-CDF scan over any linearly ordered field (interval, totality on [0,sum), positivity of the selected entry, surjectivity onto positive entries, half-open right end, fallback positivity), tied to dit by a correspondence check that runs the real rand/sample and the model's scan instantiated at IEEE doubles on the same pmfs and random numbers (all float interval boundaries included) and compares indices exactly.", "§5 C12"),
  'C19': ("18 Lean theorems about the sliding-window count model (number and content of windows, stored count = number of equal windows, counts sum to the number of windows so frequencies sum to one, conditional counts add up to history counts, totals), tied to dit by running distribution_from_data / counts_from_data / dist_from_timeseries / entropy_0,1,2 on the real code and the model's exact counts on the same data (all binary sequences up to length 10 in the thorough tier); binned() is decided by a direct oracle.", "§5 C19"),
  'C20': ("Lean theorems: slots/simplex_grid enumerate exactly the weak compositions, each once, in lexicographic order, C(n+k-1,k-1) of them; Aitchison clr/alr/ilr inverses, isometry and closure properties over the reals (where proved; see evidence.partial_theorems); tied to dit by comparing the real slots/simplex_grid output with the model's exactly and the real Aitchison / pmfops functions with the model's definitions evaluated in Float (1e-9) plus direct postcondition oracles (sum, sign, support, grid membership, round-trip error).", "§5 C20"),
